@@ -154,7 +154,7 @@ theorem tstep_render {cfg : Cfg} {tid : Tid} {sh sh' : Sh} {th th' : Thread}
       | (simp [Pc.RenderOk]; done)
       | (apply hret; simp [Thread.okRes]; done))
   all_goals (rw [‹th.pc = _›] at hp; simp only [Pc.RenderOk] at hp)
-  case h_16 =>
+  case h_17 =>
     rename_i t ctx kinds k rest used _
     obtain ⟨done, hk, hu⟩ := hp
     exact renderOk_afterScan (memoInv_set hm _ _) hr _ _ _ _ _ (done ++ [k]) (by simp [hk]) (by simp [hu])
